@@ -125,6 +125,8 @@ func (source SourceGeopackage) ReadFeatures(features chan<- processing.Feature) 
 					c = append(c, v)
 				case float64:
 					c = append(c, v)
+				case bool: // a column declared BOOLEAN
+					c = append(c, v)
 				case time.Time:
 					c = append(c, v)
 				case string:
